@@ -1105,6 +1105,11 @@ class TLSConnection(TLSRecordLayer):
                     yield result
                 else:
                     break
+            if result.random == TLS_1_3_HRR:
+                for result in self._sendError(
+                        AlertDescription.unexpected_message,
+                        "Received second HelloRetryRequest"):
+                    yield result
 
         serverHello = result
 
